@@ -3,7 +3,7 @@
 (step, context shape, occupancy mask))."""
 import os
 SHAPES = ["r", "rr", "rv", "rrr", "rrv", "rvr", "rvv"]
-STEPS = ["lookup", "assign", "unset", "pop", "push", "attrs"]
+STEPS = ["lookup", "assign", "unset", "pop", "push", "attrs", "env"]
 if os.environ.get("VERIF_DBG"):
     STEPS += ["dbg1", "dbg2", "dbg3"]
 
@@ -19,6 +19,8 @@ def arms():
                 if st == "push" and len(s) > 2:
                     continue
                 if st == "attrs" and m == 0:
+                    continue
+                if st == "env" and m == 0:
                     continue
                 out.append(("c16_%s_%s_m%d" % (st, s, m), st, kinds, m))
     return out
